@@ -203,6 +203,18 @@ def r13_1(ctx):
         if kind != "flush":
             named_nodes = [w for w, tmpl, dts in named_w if w in r and tmpl.startswith("xt error in ") and any(vocab.bin_vocab(ctx.facts)["path"]["path"] in ty or "Path" in ty for _, ty in dts)]
             named = bool(terms) and bool(named_nodes) and _fail_always_through(v, n, named_nodes)
+            if not named and terms:
+                # the name may reach the message as text (`Failure::input(path, err)` stores `path.to_string()`):
+                # then the 'xt error in {}' line is still written on every failing path, and the path value is
+                # handed to a same-crate constructor of the failure on the way
+                pty = vocab.bin_vocab(ctx.facts)["path"]["path"]
+                in_line = [w for w, tmpl, dts in named_w if w in r and tmpl.startswith("xt error in {}")]
+                gives_path = []
+                for cn_, cb_, ct_ in v.calls:
+                    cf_ = fn_of(ct_) or {}
+                    if cn_ in r and cf_.get("local") and any(is_place(a_) and (pty in cb_.local_ty(a_["p"]["l"]) or "std::path::Path" in cb_.local_ty(a_["p"]["l"])) for a_ in ct_["args"]):
+                        gives_path.append(cn_)
+                named = bool(in_line) and _fail_always_through(v, n, in_line) and bool(gives_path) and _fail_always_through(v, n, gives_path)
             ctx.ob(f"fail:{kind}:names-input", named, v.site(n), "message is 'xt error in <input>: ...'" if named else "failure message does not name the offending input")
 
 
